@@ -111,8 +111,10 @@ def gen_program(rng, lang=None, max_entities=10):
                 _gen_record(prog, rng, idx, "struct")
             elif r < 70:
                 _gen_record(prog, rng, idx, "union")
-            elif r < 85:
+            elif r < 82:
                 _gen_typedef(prog, rng, idx)
+            elif r < 86:
+                _gen_vector(prog, rng, idx)
             elif r < 91:
                 _gen_function(prog, rng, idx)
             elif r < 96:
@@ -126,8 +128,10 @@ def gen_program(rng, lang=None, max_entities=10):
                 _gen_record(prog, rng, idx, "union")
             elif r < 66:
                 _gen_template(prog, rng, idx)
-            elif r < 78:
+            elif r < 76:
                 _gen_typedef(prog, rng, idx)
+            elif r < 79:
+                _gen_vector(prog, rng, idx)
             elif r < 86:
                 _gen_alias_template(prog, rng, idx)
             elif r < 90:
@@ -310,7 +314,22 @@ def _gen_typedef(prog, rng, idx):
             prog.add(e)
     else:
         p = rng.pick(C_PRIMS)
-        prog.add(Entity(name, "typedef", f"typedef {p} {name};"))
+        e = Entity(name, "typedef", f"typedef {p} {name};")
+        e.prim_target = p
+        prog.add(e)
+
+
+def _gen_vector(prog, rng, idx):
+    """A SIMD vector typedef whose lane type is a primitive or a typedef of one."""
+    name = f"V{idx}_t"
+    lanes = [e.name for e in prog.entities if e.kind == "typedef" and getattr(e, "prim_target", None)]
+    if lanes and rng.chance(650):
+        lane = rng.pick(lanes)
+        e = Entity(name, "typedef", f"typedef {lane} {name} __attribute__((vector_size(16)));", hard={lane})
+    else:
+        lane = rng.pick(["float", "int", "double", "short", "unsigned"])
+        e = Entity(name, "typedef", f"typedef {lane} {name} __attribute__((vector_size(16)));")
+    prog.add(e)
 
 
 def _gen_alias_template(prog, rng, idx):
